@@ -55,7 +55,7 @@ from mc import spaces as S
 from mc.ref import fd
 
 PROPERTY = 'C13'
-BUDGET = {'quick': 600, 'thorough': 3000}
+BUDGET = {'quick': 1500, 'thorough': 3000}
 
 KINDS = ('fd', 'pd', 'grad', 'div', 'lap')
 CLS = {'fd': 'finite_diff', 'pd': 'PartialDerivative', 'grad': 'Gradient', 'div': 'Divergence',
